@@ -88,13 +88,15 @@ class Circuit:
 
     def send(self, message: Message, transport=None) -> UDPPacket:
         if self.prepare_message(message):
-            # If the message originates from us then we're responsible for resends.
+            packet = self._send_prepared_message(message, transport)
+            # If the message originates from us then we're responsible for resends. Only once it
+            # really went out: a packet that couldn't be serialized will never be ACKed.
             if message.reliable and message.synthetic:
                 self.unacked_reliable[(message.direction, message.packet_id)] = ReliableResendInfo(
                     last_resent=_utcnow(),
                     message=message,
                 )
-            return self._send_prepared_message(message, transport)
+            return packet
 
     def send_reliable(self, message: Message, transport=None) -> asyncio.Future:
         """send() wrapper that always sends reliably and allows `await`ing ACK receipt"""
@@ -131,7 +133,12 @@ class Circuit:
                 continue
             resend_info.last_resent = _utcnow()
             msg.send_flags |= PacketFlags.RESENT
-            self._send_prepared_message(msg)
+            try:
+                self._send_prepared_message(msg)
+            except Exception:
+                # One packet failing to go out mustn't keep the ones behind it from being resent
+                # or timed out, it gets its remaining tries like any other.
+                logging.exception(f"Failed to resend {msg.packet_id}")
 
     def send_acks(self, to_ack: Sequence[int], direction=Direction.OUT, packet_id=None):
         logging.debug("%r acking %r" % (direction, to_ack))
